@@ -21,6 +21,8 @@ def config(name):
         return cc.consts_of(**base, PNu=3, Numeric=False, MaxLen=7, MaxAnc=4, AddPairs=PAIRS2, TmplLoss=True, MaxHer=(0, 2, 1), MaxAdds=2)
     if name == "A1_nested":          # nesting: template(2) into template(3) into the parent; 4-mode parent
         return cc.consts_of(**base, PNu=4, Numeric=False, MaxLen=7, MaxAnc=4, AddPairs=PAIRS3, TmplLoss=False, MaxHer=(0, 1, 1), MaxAdds=3)
+    if name == "A1_wide":            # a 5-line sub-circuit with three heralds added across the ancilla of an earlier 3-line one
+        return cc.consts_of(**base, PNu=4, TNu=(5, 3), Numeric=False, MaxLen=8, MaxAnc=4, AddPairs=PAIRS2, TmplLoss=False, MaxHer=(0, 3, 1), MaxAdds=2)
     if name == "A1_struct_q":        # quick rungs of the two structural scopes
         return cc.consts_of(**base, PNu=3, Numeric=False, MaxLen=5, MaxAnc=4, AddPairs=PAIRS2, TmplLoss=True, MaxHer=(0, 2, 1), MaxAdds=2)
     if name == "A1_nested_q":
@@ -63,6 +65,8 @@ def run(tier):
         c = config(name)                              # behaviours for replay are always drawn from the full scope
         cc.sim_phase(chk, PID, name, c, MINE, 16000 if th else 2400, 9, {"scenario": "tmpl", "numeric": False, "pnu": pnu, "tmpl_loss": loss},
                      nontrivial_fn=onto_ancilla)
+    cc.sim_phase(chk, PID, "A1_wide", config("A1_wide"), MINE, 12000 if th else 2000, 9,
+                 {"scenario": "tmpl", "numeric": False, "pnu": 4, "tnu": (5, 3), "tmpl_loss": False}, nontrivial_fn=onto_ancilla)
     cc.script_phase(chk, PID, "findings", cc.load_corpus(PID), MINE)
     cc.repo_tests_phase(chk, PID, MINE, ["tests/sdk/circuit_test.py"] + (["tests/qubit", "tests/interferometers", "tests/sdk/display_test.py", "tests/tomography"] if th else []))
     cc.trace_phase(chk, PID, "wiring_ring", 2400 if th else 400, "wiring", MINE, numeric=True)
